@@ -338,6 +338,29 @@ func checkReceiverAssigned(r *Report, rule string, D *ssa.Function) {
 	}
 }
 
+// checkNoWriteBelowOldReceiver: a decoder replaces what its destination
+// held; it does not write INTO it. Any write of D's call tree that lands below
+// a reference the receiver held before the call (an entry of the map it
+// pointed to, an element of a slice it held) makes the outcome depend on the
+// destination's history (merge instead of replace) and changes memory the
+// caller may share with other values.
+func checkNoWriteBelowOldReceiver(r *Report, rule string, D *ssa.Function) {
+	P := r.P
+	var bad []effWrite
+	for _, w := range P.effects.summary(D).writes {
+		if w.kind != "param" || w.param != 0 {
+			continue
+		}
+		for _, c := range w.path {
+			if c == "[*]" {
+				bad = append(bad, w)
+				break
+			}
+		}
+	}
+	r.ob(rule, shortFn(D)+":replaces", D, nil, "the decoder writes nothing below a map or slice its destination held before the call").check(len(bad) == 0, "no element-level write under the old receiver", "the decoder fills the map / slice the destination already held instead of replacing it: "+writeList(bad, P)+" - a second decode into the same value merges with the first one's content, unvalidated as a whole")
+}
+
 func runC19(r *Report, tier string) {
 	P := r.P
 	r.rule("R19.1", "atomic: in every message/signature/countersignature/header-bucket/bstr-nil decoder (and the methods it forwards its receiver to) each instruction that writes memory rooted at the receiver - store, append/copy on receiver-derived slices, call whose summary writes the receiver - is followed only by success exits (or by the delegated verdict of that very call).")
@@ -416,6 +439,7 @@ func runC19(r *Report, tier string) {
 	// decoder the receiver no longer holds (or depends on) its old content
 	for _, D := range decs {
 		checkReceiverAssigned(r, "R19.2", D)
+		checkNoWriteBelowOldReceiver(r, "R19.2", D)
 	}
 	checkDecodeDestinations(r, "R19.2")
 
@@ -527,6 +551,8 @@ func mutC19() []mutant {
 			Old: "\tif err := msg.Headers.UnmarshalFromRaw(); err != nil {\n\t\treturn err\n\t}\n\n\t*m = msg\n\treturn nil", New: "\t*m = msg\n\tif err := m.Headers.UnmarshalFromRaw(); err != nil {\n\t\treturn err\n\t}\n\treturn nil"},
 		{Name: "bstr/nil decoder keeps a sub-slice of the input for short strings", File: "cbor.go", Quick: true, Rule: "R19.3",
 			Old: "\treturn decModeWithTagsForbidden.Unmarshal(data, (*[]byte)(s))", New: "\tif data[0] < 0x58 {\n\t\t*s = data[1:]\n\t\treturn nil\n\t}\n\treturn decModeWithTagsForbidden.Unmarshal(data, (*[]byte)(s))"},
+		{Name: "unprotected decoder fills the map its destination held, through a helper", File: "headers.go", Quick: true, Rule: "R19.2", Key: "replaces",
+			Old: "\t*h = header\n\treturn nil\n}", New: "\tfillHeader((*map[any]any)(h), header)\n\treturn nil\n}\n\nfunc fillHeader(dst *map[any]any, decoded map[any]any) {\n\tif len(*dst) == 0 {\n\t\t*dst = decoded\n\t\treturn\n\t}\n\tfor k, v := range decoded {\n\t\t(*dst)[k] = v\n\t}\n}"},
 		{Name: "unprotected decoder merges into an existing map", File: "headers.go", Rule: "R19.2",
 			Old: "\theader := make(map[any]any, len(partialHeader))\n", New: "\theader := map[any]any(*h)\n\tif header == nil {\n\t\theader = make(map[any]any, len(partialHeader))\n\t}\n"},
 		{Name: "Signature decoder assigns the signature before parsing headers", File: "sign.go", Rule: "R19.1",
